@@ -101,6 +101,19 @@ Theorem C13_poll_read_bounded : forall dec r n cap r' n' out,
 Proof. exact c13_poll_read_bounded. Qed.
 Print Assumptions C13_poll_read_bounded.
 
+(* read_eof_mid_frame: truncation inside a frame.  No decrypted byte is waiting, the frame buffer
+   holds no complete frame (possibly a part of one) and the transport reports end of file (a read of
+   0 bytes): poll_read returns Ready(Ok) with 0 bytes - the code reports a clean end of stream after
+   the bytes of the complete frames, stated as is - nothing is decrypted, the nonce does not move and
+   the partial frame stays in the buffer *)
+Theorem C13_read_eof_mid_frame : forall dec r n cap n1,
+  buf_len (r_payload r) = 0 -> frame_complete (r_frame r) = Ok None ->
+  inner_read n (buf_capacity (r_frame r)) = (n1, PReady []) ->
+  exists r', poll_read dec r n cap = Ok (r', n1, PReady []) /\
+    r_got r' = r_got r /\ r_frame r' = r_frame r /\ b_data (r_payload r') = [].
+Proof. exact c13_read_eof_mid_frame. Qed.
+Print Assumptions C13_read_eof_mid_frame.
+
 (* the constants of stream.rs are an instance *)
 Theorem C13_real_constants : pc_ok MAX_PAYLOAD_LEN /\ FC MAX_PAYLOAD_LEN = MAX_PAYLOAD_LEN + 18.
 Proof. split; [exact real_pc_ok|exact (FC_val MAX_PAYLOAD_LEN (proj1 real_pc_ok))]. Qed.
@@ -129,3 +142,16 @@ Example C13_nonvacuous_tamper :
        OTamper (tamper_of (KFlipBody 1 0 1)); ORead 10 []; ORead 10 []; ORead 10 []] = Ok s /\
     s_accepted s = [1; 2; 3; 4; 5; 6]%Z /\ s_delivered s = [1; 2; 3; 4]%Z /\ s_failed s = true.
 Proof. eexists. split; [vm_compute; reflexivity|]. vm_compute. repeat split; reflexivity. Qed.
+
+(* Non-vacuity of C13_read_eof_mid_frame (payload capacity 4): the frame buffer holds 3 bytes of a
+   frame announcing 5 ciphertext bytes and the transport is closed and drained (end of file). *)
+Example C13_nonvacuous_eof_mid_frame :
+  let net_eof := {| n_wscript := []; n_rscript := []; n_hist := []; n_chan := []; n_rin := [];
+                    n_cut := true; n_closed := true; n_log := [] |} in
+  let r := {| r_payload := buf_new 4;
+              r_frame := {| b_pre := []; b_data := [5; 0; 9]%Z; b_post := repeat 0%Z 19 |};
+              r_got := [] |} in
+  buf_len (r_payload r) = 0 /\ frame_complete (r_frame r) = Ok None /\
+  inner_read net_eof (buf_capacity (r_frame r)) =
+    (fst (inner_read net_eof (buf_capacity (r_frame r))), PReady []).
+Proof. vm_compute. repeat split; reflexivity. Qed.
